@@ -433,6 +433,9 @@ func (g *gen) buildMessage(p *msgPlan) {
 		if g.mode == Annotated && opts == nil {
 			opts = g.consistentOptions(ft, card)
 		}
+		if g.mode == Arbitrary && opts == nil && rapid.IntRange(0, 3).Draw(t, "consistentopts") == 0 {
+			opts = g.consistentOptions(ft, card)
+		}
 		if g.mode == Arbitrary {
 			opts = g.arbitraryOptions(ft, card, opts)
 			if ft.class == "message" && card == "" && rapid.IntRange(0, 5).Draw(t, "anyflatten") == 0 {
